@@ -47,3 +47,33 @@ func VrtConnect(sa *ServerActor, addr string, handler NetworkEnvelopHandler) *Vr
 	m.connection = &tcpConnectionActor{client: true, conn: c, codec: sa.codec, envelopHandler: handler, advertiseAddr: addr}
 	return w
 }
+
+// VrtLiveWire is an outbound connection whose frames are handed to a callback
+// at once (a healthy in-memory link); while Down it refuses every write (the
+// peer crashed / is unreachable).
+type VrtLiveWire struct {
+	vhConn
+	OnFrame func(frame []byte)
+	Down    bool
+	Sent    int
+}
+
+func (w *VrtLiveWire) Write(p []byte) (int, error) {
+	if w.Down {
+		return 0, vivid.ErrorRemotingMessageSendFailed
+	}
+	w.Sent++
+	if len(p) >= 4 && w.OnFrame != nil {
+		w.OnFrame(append([]byte{}, p[4:]...))
+	}
+	return len(p), nil
+}
+
+// VrtLiveConnect pre-establishes the outbound connection to addr over a live wire.
+func VrtLiveConnect(sa *ServerActor, addr string, handler NetworkEnvelopHandler) *VrtLiveWire {
+	w := &VrtLiveWire{vhConn: vhConn{cut: -1}}
+	m := sa.remotingMailboxCentral.GetOrCreate(addr, handler)
+	var c net.Conn = w
+	m.connection = &tcpConnectionActor{client: true, conn: c, codec: sa.codec, envelopHandler: handler, advertiseAddr: addr}
+	return w
+}
